@@ -85,3 +85,116 @@ def decode_paths(prog, nbytes):
             p.label = decode.describe_path(p)
         _RUNS[key] = (run, oks, errs)
     return _RUNS[key]
+
+
+# ------------------------------------------------------------------------------------------- tabulation
+from fractions import Fraction
+from ..ai.pathcond import eval_fact, eval_bx
+from ..ai.values import FloatVal, fact_atoms
+from ..ai.pathcond import facts_atoms
+
+
+def eval_int(v, assign):
+    if v.is_const():
+        return v.lo
+    if v.lin is not None:
+        return v.lin.eval(assign)
+    if v.bits is not None and all(e is not None for e in v.bits):
+        x = 0
+        for k, e in enumerate(v.bits):
+            x |= eval_bx(e, assign) << k
+        return x
+    return None
+
+
+def eval_term(t, assign):
+    """exact rational value of a float term (None if it contains non-polynomial operators)"""
+    if t is None:
+        return None
+    k = t[0]
+    if k == "const":
+        try:
+            return Fraction(t[1])
+        except (ValueError, TypeError):
+            return None
+    if k == "int":
+        v = eval_int(t[1], assign)
+        return Fraction(v) if v is not None else None
+    if k == "fcast":
+        return eval_term(t[2], assign)
+    if k == "Neg":
+        x = eval_term(t[1], assign)
+        return -x if x is not None else None
+    if k in ("Add", "Sub", "Mul", "Div"):
+        a, b = eval_term(t[1], assign), eval_term(t[2], assign)
+        if a is None or b is None:
+            return None
+        if k == "Add":
+            return a + b
+        if k == "Sub":
+            return a - b
+        if k == "Mul":
+            return a * b
+        return a / b if b != 0 else None
+    return None
+
+
+def eval_value(v, assign):
+    if isinstance(v, IntVal):
+        return eval_int(v, assign)
+    if isinstance(v, FloatVal):
+        if v.const is not None:
+            return Fraction(v.const).limit_denominator(10 ** 9)
+        return eval_term(v.term, assign)
+    if isinstance(v, AdtVal) and not v.fields:
+        return ("unit", v.vname)
+    if isinstance(v, AdtVal) and v.vname in ("Some", "Ok") and len(v.fields) == 1:
+        x = eval_value(v.fields[0], assign)
+        return (v.vname, x)
+    return None
+
+
+def restrict_facts(fcts, aset):
+    out = []
+    for f in fcts:
+        if f[0] == "or":
+            conjs = tuple(tuple(restrict_facts(c, aset)) for c in f[1])
+            out.append(("or", conjs))
+        else:
+            fa = facts_atoms([f])
+            if fa and fa <= aset:
+                out.append(f)
+    return out
+
+
+def tabulate(alternatives, atoms):
+    """alternatives: [(facts, value)]; atoms: ordered list (MSB first). Returns (table: N -> value | ('AMBIG', set) | ('NONE',), problems)"""
+    atoms = list(atoms)
+    aset = frozenset(atoms)
+    n = len(atoms)
+    alts = [(restrict_facts(f, aset), v) for f, v in alternatives]
+    table = {}
+    for N in range(1 << n):
+        assign = {a: (N >> (n - 1 - i)) & 1 for i, a in enumerate(atoms)}
+        vals = set()
+        inexact = False
+        for fcts, v in alts:
+            ok = True
+            for f in fcts:
+                r = eval_fact(f, assign)
+                if r is False:
+                    ok = False
+                    break
+            if not ok:
+                continue
+            x = eval_value(v, assign)
+            if x is None:
+                inexact = True
+            vals.add(x)
+        if not vals:
+            table[N] = ("NONE",)
+        elif len(vals) > 1 or inexact:
+            table[N] = ("AMBIG", vals)
+        else:
+            table[N] = vals.pop()
+    return table
